@@ -80,20 +80,41 @@ def sh2(cmd, cwd=None, timeout=None, env=None, stdin=None):
 
 
 class Lock:
-    """flock-based mutex shared by concurrently running checks."""
+    """flock-based mutex shared by concurrently running checks; re-entrant within one thread of one
+    process (a nested `with Lock(name)` by the holder does not block)."""
+    _held = {}          # name -> [file, depth, owner thread id]
+    _guard = None
 
     def __init__(self, name):
         os.makedirs(BUILD, exist_ok=True)
+        self.name = name
         self.path = os.path.join(BUILD, name + ".lock")
 
     def __enter__(self):
-        self.f = open(self.path, "w")
-        fcntl.flock(self.f, fcntl.LOCK_EX)
+        import threading
+        if Lock._guard is None:
+            Lock._guard = threading.Lock()
+        me = threading.get_ident()
+        with Lock._guard:
+            h = Lock._held.get(self.name)
+            if h and h[2] == me:
+                h[1] += 1
+                return self
+        f = open(self.path, "w")
+        fcntl.flock(f, fcntl.LOCK_EX)       # blocks: another process, or another thread of this one
+        with Lock._guard:
+            Lock._held[self.name] = [f, 1, me]
         return self
 
     def __exit__(self, *a):
-        fcntl.flock(self.f, fcntl.LOCK_UN)
-        self.f.close()
+        with Lock._guard:
+            h = Lock._held[self.name]
+            h[1] -= 1
+            if h[1] > 0:
+                return
+            del Lock._held[self.name]
+        fcntl.flock(h[0], fcntl.LOCK_UN)
+        h[0].close()
 
 
 def write_if_changed(path, text):
@@ -247,7 +268,9 @@ def regen_facts(ctx):
         shutil.rmtree(tmpd, ignore_errors=True)
         raise RuntimeError("translator failed (rc=%d):\n%s" % (rc, out[-4000:]))
     facts = json.load(open(os.path.join(tmpd, "facts.json")))
-    with Lock("lake"):
+    # "gen": nobody rewrites Generated/* while another check is between its regeneration and the end of its
+    # Lean build + audit (lean_obligations holds it for that whole span)
+    with Lock("gen"), Lock("lake"):
         for f in sorted(os.listdir(tmpd)):
             if f.endswith(".lean"):
                 write_if_changed(os.path.join(outdir, f), open(os.path.join(tmpd, f)).read())
@@ -368,6 +391,16 @@ def axiom_audit(module, names=None):
 def lean_obligations(ctx, module, extra_modules=()):
     """Build the property module (and `extra_modules`, further modules holding theorems of the same
     property), audit them; records one obligation per theorem.  Returns (ok, build_output)."""
+    with Lock("gen"):
+        # the facts the obligations are evaluated at are those of ctx.repo, regenerated inside the same
+        # critical section as the build and the axiom audit (checks of different trees may run concurrently)
+        regen_facts(ctx)
+        from vlib import traits_facts
+        traits_facts.regen(ctx)
+        return _lean_obligations_locked(ctx, module, extra_modules)
+
+
+def _lean_obligations_locked(ctx, module, extra_modules=()):
     mods_all = [module] + [m for m in extra_modules if os.path.exists(os.path.join(LEAN, m.replace(".", "/") + ".lean"))]
     ok, out = lake_build(mods_all)
     ctx.coverage["lean_module"] = module
